@@ -121,6 +121,10 @@ def rename_ts(text, lang, style):
     return out.decode("utf-8")
 
 
+PY_SCOPES2_NEW = ["in-match-str", "in-match-int", "in-match-default", "in-function-with", "in-if-else", "in-try-except", "in-try-finally", "in-async-function"]
+PY_SCOPES2 = ["in-function-class", "in-function-if", "in-function-try", "in-class-class"] + PY_SCOPES2_NEW
+
+
 def embed(row, kind, rng):
     """-> (text, line mapping old->new as function, multiplier) or None when not applicable."""
     text, lang = row["text"], row["lang"]
@@ -213,15 +217,26 @@ def embed(row, kind, rng):
         if '"""' in text or "'''" in text:
             return None  # re-indenting would change multi-line string contents
         return head + body, [lambda l: l + 1], 1
-    if kind in ("in-function-class", "in-function-if", "in-function-try", "in-class-class") and lang == "py":
+    if kind in PY_SCOPES2 and lang == "py":
         if re.search(r"^(return|yield)\b", text, re.M) or "__name__" in text or "from __future__" in text or '"""' in text or "'''" in text or re.search(r"^\s*(import \*|from \S+ import \*)", text, re.M):
             return None
         heads = {"in-function-class": ["def wrapper_embedded(flag_embedded):", "    class InnerEmbedded:"],
                  "in-function-if": ["def wrapper_embedded(flag_embedded):", "    if flag_embedded:"],
                  "in-function-try": ["def wrapper_embedded(flag_embedded):", "    try:"],
-                 "in-class-class": ["class OuterEmbedded:", "    class InnerEmbedded:"]}[kind]
+                 "in-class-class": ["class OuterEmbedded:", "    class InnerEmbedded:"],
+                 # the remaining compound statements: the arms of a match (string cases / other cases), with, else, except, finally, an async function
+                 "in-match-str": ["match CHANNEL_EMBEDDED:", "    case \"email_embedded\":"], "in-match-int": ["match CHANNEL_EMBEDDED:", "    case 1:"],
+                 "in-match-default": ["match CHANNEL_EMBEDDED:", "    case _:"],
+                 "in-function-with": ["def wrapper_embedded(flag_embedded):", "    with flag_embedded:"], "in-if-else": ["if FLAG_EMBEDDED:\n    FLAG_EMBEDDED = None", "else:\n    if True:"],
+                 "in-try-except": ["try:\n    FLAG_EMBEDDED = None", "except LookupError:\n    if True:"], "in-try-finally": ["try:\n    FLAG_EMBEDDED = None", "finally:\n    if True:"],
+                 "in-async-function": ["async def wrapper_embedded(flag_embedded):", "    if flag_embedded:"]}[kind]
         body = "".join(("        " + ln if ln.strip() else ln) + "\n" for ln in text.split("\n")[:-1])
         tail = "    except LookupError:\n        flag_embedded = None\n" if kind == "in-function-try" else ""
+        if kind == "in-match-str":
+            tail = "    case \"sms_embedded\":\n        FLAG_EMBEDDED = None\n    case \"push_embedded\":\n        FLAG_EMBEDDED = None\n"
+        off = sum(h.count("\n") + 1 for h in heads)
+        if off != 2:
+            return "\n".join(heads) + "\n" + body + tail, [lambda l, o=off: l + o], 1
         return "\n".join(heads) + "\n" + body + tail, [lambda l: l + 2], 1
     if kind.startswith("repeat") and lang == "py":
         k = int(kind[6:])
@@ -314,7 +329,7 @@ def run(ctx):
             if cmd in docs.HEADER_BOUND:
                 kinds += ["before-filler"]
             else:
-                kinds += ["re-as", "re-from", "re-from-flag-first", "re-from-compile-first", "re-from-extra-last", "body-in-for", "body-in-while", "body-in-if", "after-filler", "before-filler", "in-function", "in-if", "in-for", "in-while", "repeat2", "repeat3", "in-function-class", "in-function-if", "in-function-try", "in-class-class"]
+                kinds += ["re-as", "re-from", "re-from-flag-first", "re-from-compile-first", "re-from-extra-last", "body-in-for", "body-in-while", "body-in-if", "after-filler", "before-filler", "in-function", "in-if", "in-for", "in-while", "repeat2", "repeat3", "in-function-class", "in-function-if", "in-function-try", "in-class-class"] + PY_SCOPES2_NEW
                 ts_scopes = ["ts-in-function", "ts-in-arrow", "ts-in-fexpr", "ts-in-if", "ts-in-method", "ts-in-objmethod", "ts-in-for", "ts-in-while"]
                 renames = ["rename-suffix", "rename-fresh"]
                 if r["lang"] in ("ts", "js"):
@@ -326,7 +341,7 @@ def run(ctx):
                         # (the documentation has few TS/JS examples: every scope, alone and with fresh names, also in the quick tier)
                         kinds = ["as-is"] + ts_scopes + ["rename-suffix"] + ["rename-fresh+" + sc for sc in ts_scopes] + ["rename-suffix+" + rng.choice(ts_scopes)]
                     else:
-                        kinds = ["as-is", "repeat2", rng.choice(["in-function-class", "in-function-if", "in-function-try"]), "rename-" + rng.choice(["suffix", "fresh"]),
+                        kinds = ["as-is", "repeat2", rng.choice(["in-function-class", "in-function-if", "in-function-try"]), "in-match-str", rng.choice(PY_SCOPES2_NEW[1:]), "rename-" + rng.choice(["suffix", "fresh"]),
                                  "rename-%s+%s" % (rng.choice(["suffix", "fresh"]), rng.choice(["in-function", "in-function-if"]))] + \
                             rng.sample(["after-filler", "before-filler", "in-function", "in-if", "repeat3", "in-class-class"], 2) + [rng.choice(["in-for", "in-while"]), rng.choice(["body-in-for", "body-in-while", "body-in-if"])] + \
                             ["re-as", "re-from", "re-from-flag-first", "re-from-compile-first", "re-from-extra-last"]  # (apply to the few regex examples only)
@@ -388,6 +403,9 @@ def run(ctx):
             continue
         got_lines = sorted(x[2] for x in got)
         ctx.count("embeddings_checked")
+        ctx.obs.setdefault("embeddings_checked_by_linter_and_scope", {})
+        ek = "%s:%s" % (case["cmd"], case["kind"].split("+")[-1])
+        ctx.obs["embeddings_checked_by_linter_and_scope"][ek] = ctx.obs["embeddings_checked_by_linter_and_scope"].get(ek, 0) + 1
         if len(got) != len(b) * case["mult"] or exp_lines != got_lines:
             ctx.discrepancy("embedding-changes-findings:%s:%s" % (case["cmd"], case["kind"].rstrip("23") if case["kind"].startswith("repeat") else case["kind"]), "%s (%s) embedded %s: base %d finding(s) at lines %r, embedded %d at %r (expected %r)" % (
                 ident, row["label"], case["kind"], len(b), sorted(x[2] for x in b), len(got), got_lines, exp_lines), rep, dict(files, **{"original%s" % EXT[case["lang"]]: case["orig"]}))
